@@ -417,6 +417,44 @@ impl Field {
         (acc % 65535) as u32
     }
 
+    /// eval_poly for ALL x at once, for any indicator vector: out[x] = sum_j e[j] * L[x ^ j] with
+    /// L[0] = 0, L[y] = log(y), i.e. the XOR-convolution of the indicator with the log table. Computed
+    /// exactly over the integers by the Walsh-Hadamard convolution theorem in i64 arithmetic (no
+    /// modular shortcuts: |values| < 2^16 * 2^16 * 2^16 fits easily), reduced mod 65535 at the end.
+    /// Cross-checked against `eval_poly_ref` (the plain definition) in `self_check_conv`.
+    pub fn eval_poly_all(&self, marked: &[usize]) -> Vec<u32> {
+        let n = ORDER;
+        let mut e = vec![0i64; n];
+        for &m in marked {
+            e[m] = 1;
+        }
+        let mut l: Vec<i64> = (0..n).map(|y| if y == 0 { 0 } else { self.log[y] as i64 }).collect();
+        wht(&mut e);
+        wht(&mut l);
+        for i in 0..n {
+            e[i] *= l[i];
+        }
+        wht(&mut e);
+        e.iter()
+            .map(|v| {
+                debug_assert!(v % n as i64 == 0);
+                ((v / n as i64).rem_euclid(65535)) as u32
+            })
+            .collect()
+    }
+
+    pub fn self_check_conv(&self) -> u64 {
+        let mut n = 0;
+        for marked in [vec![5usize], vec![0, 1, 77, 4096, 65535], (100..140).collect::<Vec<_>>()] {
+            let all = self.eval_poly_all(&marked);
+            for x in (0..ORDER).step_by(257).chain([0, 1, 5, 77, 65535]) {
+                assert_eq!(all[x], self.eval_poly_ref(&marked, x), "convolution reference disagrees with the definition at x={x}");
+                n += 1;
+            }
+        }
+        n
+    }
+
     /// Skew table entry by definition: i in 0..65535; k = tz(i+1); w = i+1-2^k;
     /// value = log(shat_k(w)), or 65535 ("multiply by zero") when shat_k(w) = 0.
     pub fn skew_ref(&self, i: usize) -> u16 {
@@ -499,5 +537,23 @@ mod tests {
         f.check_mds(&g).unwrap();
         let sh: Vec<u8> = (0..130u32).map(|x| (x * 7 + 3) as u8).collect();
         assert_eq!(symbols_to_shard(&shard_to_symbols(&sh)), sh);
+    }
+}
+
+/// in-place Walsh-Hadamard transform over the integers (unnormalised)
+pub fn wht(a: &mut [i64]) {
+    let n = a.len();
+    let mut h = 1;
+    while h < n {
+        let mut i = 0;
+        while i < n {
+            for j in i..i + h {
+                let (x, y) = (a[j], a[j + h]);
+                a[j] = x + y;
+                a[j + h] = x - y;
+            }
+            i += 2 * h;
+        }
+        h *= 2;
     }
 }
